@@ -12,21 +12,27 @@ def run(tier: str, seed: int):
     if tier == 'quick':
         cfgs = (list(F.fam_shapes(1, 4, batch=2, pre=False)) + list(F.fam_variants(3, batch=2))
                 + list(F.fam_faults(2, 4, max_faults=1, reqs='sinks', cofs=(True,)))
-                + list(F.fam_shapes(2, 3, batch=2, bust=(True,))))
+                + list(F.fam_shapes(2, 3, batch=2, bust=(True,))) + list(F.fam_types3())
+                + list(F.fam_faults(2, 3, max_faults=1, reqs='sinks', cofs=(True,), kinds=('raise',), pre=True, bust=(True,))))
         serial = (list(F.fam_shapes(1, 3, batch=1)) + list(F.fam_faults(2, 3, cofs=(True,), kinds=('raise',)))
                   + list(F.fam_shapes(2, 3, batch=1, bust=(True,))) + list(F.fam_variants(2)))
         rule = ('all DAG shapes n<=4 x requested subsets, every completion order (batch<=2); n<=3 placements x dup x '
                 'types x request variants x pre-cache; single faults (raise/died) n<=4; real SerialRunner slice')
         e3c = (list(F.fam_e3(list(F.fam_shapes(1, 3, pre=False)) + list(F.fam_faults(2, 3, cofs=(True,), reqs='sinks')), workers=(1, 2), liveness=False))
-               + list(F.fam_e3(F.fam_variants(2), workers=(2,), liveness=False)))     # placements / equal instances / types on the real process runners
+               + list(F.fam_e3(F.fam_variants(2), workers=(2,), liveness=False))     # placements / equal instances / types on the real process runners
+               # several distinct never-cached dependencies of one task; failing re-executions over entries of an earlier run
+               + list(F.fam_e3(list(F.fam_types3()) + list(F.fam_faults(2, 3, max_faults=1, reqs='sinks', cofs=(True,), kinds=('raise',), pre=True, bust=(True,))),
+                               workers=(2,), liveness=False)))
     else:
         cfgs = (list(F.fam_shapes(1, 5, batch=2, pre=False)) + list(F.fam_shapes(1, 4, batch=3))
                 + list(F.fam_variants(3, batch=3))
                 + list(F.fam_faults(2, 4, max_faults=2, reqs='subsets', cofs=(True,)))
                 + list(F.fam_faults(5, 5, max_faults=1, reqs='sinks', cofs=(True,)))
-                + list(F.fam_shapes(2, 4, batch=2, bust=(True,))))
+                + list(F.fam_shapes(2, 4, batch=2, bust=(True,))) + list(F.fam_types3(('TA', 'TN', 'TM')))
+                + list(F.fam_faults(2, 4, max_faults=2, reqs='sinks', cofs=(True,), kinds=('raise',), pre=True, bust=(True,))))
         serial = list(F.fam_shapes(1, 4, batch=1, bust=(False, True))) + list(F.fam_faults(2, 4, cofs=(True,), kinds=('raise',))) + list(F.fam_variants(3))
         rule = 'n<=5 shapes (batch<=2), n<=4 (batch<=3) with pre-cache; fault sets <=2 on n<=4, <=1 on n=5'
         e3c = (list(F.fam_e3(list(F.fam_shapes(1, 3)) + list(F.fam_faults(2, 3, max_faults=2, cofs=(True,))), workers=(1, 2, None))) + list(F.fam_e3(F.fam_faults(4, 4, cofs=(True,), reqs='sinks'), workers=(2,), liveness=False))
-               + list(F.fam_e3(F.fam_variants(3), workers=(2,), liveness=False)))
+               + list(F.fam_e3(F.fam_variants(3), workers=(2,), liveness=False))
+               + list(F.fam_e3(list(F.fam_types3(('TA', 'TN', 'TM'))) + list(F.fam_faults(2, 3, max_faults=2, cofs=(True,), kinds=('raise',), pre=True, bust=(True,))), workers=(1, 2))))
     return run_e2_property('C02', tier, seed, cfgs, serial_configs=serial, e3_configs=e3c, real_cases=list(F.fam_real(F.real_bases('plain') + F.real_bases('faults'), workers=(2,))), rule=rule, assumptions=ASSUME)
